@@ -645,6 +645,23 @@ func (m *Monitors) afterOp(n *Node, kind string) {
 			m.committed[i] = k
 		}
 	}
+	// C16: no appends to a follower whose snapshot is pending: a follower leaves StateSnapshot only
+	// through a reported outcome, an acknowledgement from that follower, a change of its progress
+	// record by a configuration change, or the end of the leadership
+	if prev != nil && prev.State == raft.StateLeader && d.State == raft.StateLeader && prev.Term == d.Term {
+		for id, pp := range prev.Progress {
+			np, ok := d.Progress[id]
+			if pp.State != tracker.StateSnapshot || !ok || np.State == tracker.StateSnapshot {
+				continue
+			}
+			m.hit("C16.left-snapshot-state")
+			allowed := kind == "snapstatus" || kind == "applycc" || kind == "advance" ||
+				(kind == "step" && msg != nil && (msg.GetFrom() == id || msg.GetType() == pb.MsgStorageApplyResp || msg.GetType() == pb.MsgStorageAppendResp))
+			if !allowed {
+				m.report("C16", "", "leader %d resumed appends to %d (%s -> %s) on %q while the outcome of the snapshot it sent is pending", n.id, id, pp.State, np.State, kind)
+			}
+		}
+	}
 	// leader checks
 	if d.State == raft.StateLeader {
 		me := [2]uint64{n.id, uint64(n.inc)}
